@@ -31,7 +31,7 @@ LEVEL_TEXT = ('One inductive editing step from an arbitrary invariant-satisfying
 LEVEL_NOTE = ('trusts z3, the proxy engine, the invariant stated in this file (a counterexample from a state no history reaches would mean the invariant is too weak, '
               'and is triaged, not reported); skeleton sizes and method sequences beyond the bounds are outside the claim')
 TECHNIQUE = 'inductive-step symbolic execution of the real renumbering/splicing code (symbolic citations, z3-proved post-condition) + bounded method sequences'
-FUNCTIONS = ['server.method:ProofState.add_line_before/remove_line/replace_id/set_line/find_goal/__copy__/apply_tactic', 'kernel.proof:ItemID.incr_id_after/decr_id/incr_id',
+FUNCTIONS = ['server.method:ProofState.add_line_before/remove_line/replace_id/set_line/find_goal/__copy__/apply_tactic', 'app.ide:ProofCache.create_cache/insert_step (class compiled from the source on its own)', 'kernel.proof:ItemID.incr_id_after/decr_id/incr_id',
              'kernel.proof:ProofItem.incr_proof_item/decr_proof_item/__copy__', 'kernel.proof:Proof.__copy__/insert_item/get_parent_proof/find_item',
              'server.method:apply_method (cut, cases, introduction, apply_backward_step, apply_prev, revert_intro)', 'server.server:parse_init_state/parse_proof', 'syntax.printer:export_proof_item']
 ASSUMPTIONS = [
@@ -50,7 +50,8 @@ BUDGET_S = {'quick': 240, 'thorough': 900}
 def bounds(tier):
     return {'top_level_lines': [3, 6], 'nested_block_lines': [2, 4], 'citations_per_line': '1 (2 for the goal line), values symbolic', 'insert_count': [1, 3],
             'operations': ['add_line_before', 'remove_line', 'replace_id', 'set_line', 'same on a copy'],
-            'method_sequences': {'goals': len(GOALS), 'max_steps': 3, 'length_3': '160 seeded sequences per goal + all (block-building, block-building, out-of-scope fact) sequences' if tier == 'quick' else 'all', 'goal_oracle': 'the last line is compared with the goal as stated (parsed independently), not with the initial state'}}
+            'method_sequences': {'goals': len(GOALS), 'max_steps': 3, 'length_3': '160 seeded sequences per goal + all (block-building, block-building, out-of-scope fact) sequences' if tier == 'quick' else 'all', 'goal_oracle': 'the last line is compared with the goal as stated (parsed independently), not with the initial state'},
+            'ide_cache': 'per goal: every pair of 7 recorded steps, insert_step at every index with each of the 7 steps; every stored state compared with a fresh replay'}
 
 
 def setup(tier, seed):
@@ -587,6 +588,123 @@ def run_methods(u, out, twin):
     out['samples'].append({'goal': goal, 'sequence': [STEPS_[i]['method_name'] for i in seq]})
 
 
+# ------------------------------------------------------------------ part C: the IDE's per-proof cache of states (app/ide.py)
+
+def proof_cache_class():
+    """The ProofCache class of app/ide.py, compiled from the current source on its own (the Flask application around it does not
+    import in this sandbox): its stored states are the history the user steps through."""
+    import ast
+    import copy as _copy
+    import traceback
+    import types
+    from logic import context
+    from server import server
+    repo = os.environ.get('HOLPY_REPO', '/repo')
+    tree = ast.parse(open(os.path.join(repo, 'app', 'ide.py')).read())
+    cls = [n for n in tree.body if isinstance(n, ast.ClassDef) and n.name == 'ProofCache']
+    if not cls:
+        return None
+    ns = {'copy': _copy, 'context': context, 'server': server, 'traceback2': types.SimpleNamespace(format_exc=traceback.format_exc)}
+    exec(compile(ast.Module(body=cls, type_ignores=[]), 'app/ide.py', 'exec'), ns)
+    return ns['ProofCache']
+
+
+def concrete_step(state, si):
+    """STEPS[si] made concrete for the first gap of state (goal id, fact ids) -> dict or None"""
+    gap = first_gap(state)
+    if gap is None:
+        return None
+    step = dict(STEPS[si])
+    step['goal_id'] = str(gap.id)
+    gp = tuple(gap.id.id)
+    if 'fact_abs' in step:
+        step['fact_ids'] = [str(step.pop('fact_abs'))]
+    if 'fact' in step:
+        k = step.pop('fact')
+        if gp[-1] - k < 0:
+            return None
+        step['fact_ids'] = [str(ItemID_(gp[:-1] + (gp[-1] - k,)))]
+    if 'fact_parent' in step or 'fact_in' in step:
+        return None
+    return step
+
+
+def lines_of(state):
+    return [(str(i.id), i.rule, [str(q) for q in i.prevs], str(i.th), str(i.args)) for i in all_items(state.prf)]
+
+
+def run_cache(u, out, twin):
+    """create_cache(steps) then insert_step(index, step): every stored state k must be the state reached by the first k steps."""
+    from logic import context
+    from server import server, method
+    from syntax import parser
+    _, tier, gi = u
+    PC = proof_cache_class()
+    if PC is None:
+        out.setdefault('errors', []).append('class ProofCache not found in app/ide.py')
+        return
+    goal = GOALS[gi]
+    ctx_vars = {'A': 'bool', 'B': 'bool', 'C': 'bool'}
+    base = [2, 4, 6, 7, 8, 10, 11]         # cut, cases, introduction, conjI, disjI1, conjD1 with a fact, apply_prev
+
+    def fresh(steps):
+        context.set_context('logic_base', vars=ctx_vars)
+        st = server.parse_init_state(parser.parse_term(goal))
+        states = [lines_of(st)]
+        for sp in steps:
+            st.parse_steps([sp])
+            states.append(lines_of(st))
+        return st, states
+    for seq in itertools.product(base, repeat=2):
+        # concrete recorded steps
+        st, _ = fresh([])
+        steps = []
+        for si in seq:
+            sp = concrete_step(st, si)
+            if sp is None:
+                break
+            try:
+                method.apply_method(st, sp)
+            except Exception:
+                break
+            steps.append(sp)
+        if not steps:
+            continue
+        for idx in range(len(steps) + 1):
+            st_i, _ = fresh(steps[:idx])
+            for ti in base:
+                new = concrete_step(st_i, ti)
+                if new is None:
+                    continue
+                out['evals'] += 1
+                out['keys'].add('cache|%d|%s|%d|%d' % (gi, seq, idx, ti))
+                if twin:
+                    if not out['cex']:
+                        out['cex'].append({'kind': 'twin', 'goal': gi})
+                    continue
+                pc = PC()
+                try:
+                    pc.create_cache({'username': 'master', 'theory_name': 'logic_base', 'thm_name': '', 'vars': dict(ctx_vars), 'prop': parser.parse_term(goal), 'steps': [dict(x) for x in steps]})
+                    before = [lines_of(x) for x in pc.states]
+                    _, ref0 = fresh(steps)
+                    if before != ref0:
+                        out['cex'].append({'kind': 'cache-states', 'goal': gi, 'seq': list(seq), 'idx': -1, 'ti': ti, 'why': 'create_cache: stored states differ from replaying the steps'})
+                        continue
+                    pc.insert_step(idx, dict(new))
+                    got = [lines_of(x) for x in pc.states]
+                    _, ref = fresh(steps[:idx] + [new] + steps[idx:])
+                except Exception as e:
+                    continue        # completes with an error: nothing claimed
+                if got != ref:
+                    k = [j for j in range(min(len(got), len(ref))) if got[j] != ref[j]]
+                    out['cex'].append({'kind': 'cache-states', 'goal': gi, 'seq': list(seq), 'idx': idx, 'ti': ti,
+                                       'why': 'goal %s, recorded steps %s, insert_step(%d, %s): stored state %s is not the state after the first %s steps (%d states stored, %d expected)' % (
+                                           goal, steps, idx, new, k[:1], k[:1], len(got), len(ref))})
+                    if len(out['cex']) >= 6:
+                        return
+    out['samples'].append({'cache_goal': goal})
+
+
 # ------------------------------------------------------------------ units / replay
 
 def units(tier, seed):
@@ -603,6 +721,8 @@ def units(tier, seed):
         us.append(('methods', tier, gi))
     for gi in range(len(FO_GOALS)):
         us.append(('methods', tier, gi, 'fo'))
+    for gi in range(len(GOALS)):
+        us.append(('cache', tier, gi))
     random.Random(seed).shuffle(us)
     us.sort(key=lambda u: 0 if u[0] == 'methods' else 1)
     return us
@@ -617,6 +737,8 @@ def run_unit(u):
         out['stats'] = st.as_dict()
         out['stats']['operations_that_raised'] = out.pop('op_raised', 0)
         out['samples'].append({'skeleton': {'top_level': N, 'block_at': b, 'block_lines': M}, 'operation': op, 'on_copy': on_copy, 'citations': 'symbolic'})
+    elif u[0] == 'cache':
+        run_cache(u, out, twin)
     else:
         run_methods(u, out, twin)
     out['keys'] = list(out['keys'])
@@ -628,6 +750,11 @@ def replay(c):
         return True, 'twin'
     if c['kind'].startswith('edit-'):
         return replay_edit(c)
+    if c['kind'] == 'cache-states':
+        out = {'evals': 0, 'keys': set(), 'cex': [], 'samples': [], 'inconclusive': 0, 'stats': {}}
+        run_cache(('cache', 'quick', c['goal']), out, False)
+        m = [x for x in out['cex'] if x['seq'] == c['seq'] and x['idx'] == c['idx'] and x['ti'] == c['ti']]
+        return bool(m), (m[0]['why'] if m else 'not reproduced')
     fo = c.get('fo', False)
     G, S_ = (FO_GOALS, FO_STEPS) if fo else (GOALS, STEPS)
     bad = run_sequence(G[c['goal']], c['seq'], c.get('copy_at'), fo, tuple(c.get('lastgap', ())))
